@@ -417,7 +417,7 @@ func (c *ctxT) check(cfg cfgT, cl call, status string, wire []byte, lines []stri
 		return status + " MALFORMED"
 	}
 	masked, _ := maskIDs(toks)
-	obs = status + " " + common.EncToks(masked)
+	obs = status + " " + common.EncToks(common.SortedAttrs(masked))
 	if status != "ok" {
 		if len(wire) != 0 && status != "err" {
 			c.fail("failed-call-writes", key+"/"+status, lines, fmt.Sprintf("call failed with %s but wrote %q", status, clip(wire)))
@@ -843,6 +843,31 @@ func corpus() []call {
 	return cs
 }
 
+// sameStartTwice sends the same start element value through SendElement twice
+// (past witness: the encoder filtered the caller's attribute slice in place, so
+// the second element went out with a duplicated attribute).
+func (c *ctxT) sameStartTwice(cfg cfgT) {
+	st := xml.StartElement{Name: xml.Name{Local: "message"}, Attr: at("id", "", "x", "1")}
+	cl := call{entry: "sendel", form: "reader", start: &st}
+	for i := 0; i < 2; i++ {
+		r := c.r
+		saved := call{entry: "sendel", form: "reader", start: &xml.StartElement{Name: st.Name, Attr: at("id", "", "x", "1")}}
+		line := saved.line(cfg)
+		lines := []string{r.Prop + " " + line, r.Prop + " " + line, "#the same xml.StartElement value is passed to both calls"}
+		rs := c.session(cfg)
+		rs.Out.Take()
+		status := exec(rs.S, cl)
+		wire := rs.Out.Take()
+		c.failed = false
+		obs := c.check(cfg, saved, status, wire, lines)
+		r.Line(line, obs)
+		r.Case(line+fmt.Sprint(i), status == "ok", "corpus/same-start-twice")
+		if c.failed {
+			delete(c.sess, cfg)
+		}
+	}
+}
+
 // Run is the C05 runner.
 func Run(r *common.Run) error {
 	c := &ctxT{r: r, sess: map[cfgT]*common.RawSession{}}
@@ -888,12 +913,13 @@ func Run(r *common.Run) error {
 
 	r.Mark("case corpus")
 	for _, cfg := range cfgs {
+		c.sameStartTwice(cfg)
 		for _, cl := range corpus() {
 			c.one(cfg, cl, "corpus")
 		}
 	}
 	rnd := r.Rnd
-	n := r.Pick(2500, 40000)
+	n := r.Pick(6000, 60000)
 	for i := 0; i < n; i++ {
 		big := 0
 		if i%40 == 0 {
@@ -901,7 +927,7 @@ func Run(r *common.Run) error {
 		}
 		c.one(cfgs[rnd.Intn(2)], c.genCall(rnd, big), "random")
 	}
-	nConc := r.Pick(12, 120)
+	nConc := r.Pick(30, 300)
 	for i := 0; i < nConc; i++ {
 		c.concurrent(cfgs[i%2], rnd, 2+rnd.Intn(15), 2+rnd.Intn(6), i)
 	}
